@@ -106,7 +106,15 @@ do_line (const char *path, char *line)
       orc_program_free (p); return;
     }
   } else
-  res = native ? orc_program_compile_for_target (p, orc_target_get_by_name (path)) : orc_program_compile_for_target (p, NULL);
+  if (native) {
+    /* "<target>" or "<target>@<flags>" (compile with exactly these target flags) */
+    char tn[16]; const char *at = strchr (path, '@');
+    OrcTarget *t;
+    snprintf (tn, sizeof (tn), "%.*s", at ? (int) (at - path) : 15, path);
+    t = orc_target_get_by_name (tn);
+    res = (at && t) ? orc_program_compile_full (p, t, (unsigned) strtoul (at + 1, NULL, 0)) : orc_program_compile_for_target (p, t);
+  } else
+  res = orc_program_compile_for_target (p, NULL);
   if (!cfn && ((native && !ORC_COMPILE_RESULT_IS_SUCCESSFUL (res)) || (!native && (ORC_COMPILE_RESULT_IS_FATAL (res) || !p->orccode)))) {
     HEMIT ("\"e\":\"NoCode\",\"op\":\"%s\",\"path\":\"%s\"", opname, path);
     orc_program_free (p); return;
